@@ -77,11 +77,6 @@ class frame_t;
 #ifndef VERIF_NSID
 #define VERIF_NSID 4
 #endif
-#ifdef VERIF_TYPE_FLAT
-/* ---- flat type abstraction (lemma TYPE-IS) ------------------------------------------
-   t.is(K)  <=>  K is the base kind, or K is one of the wrapper kinds on the chain.
-   Wrapper kinds that occur in documents: the prefixes URGENT COMMITTED BROADCAST CONSTANT
-   HYBRID SYSTEM_META and RANGE REF LABEL.  konst/mut abstract is_constant()/is_mutable(). */
 enum {
     VW_URGENT = 1, VW_COMMITTED = 2, VW_BROADCAST = 4, VW_CONSTANT = 8, VW_HYBRID = 16,
     VW_SYSTEM_META = 32, VW_RANGE = 64, VW_REF = 128, VW_LABEL = 256, VW_ALL = 511
@@ -101,6 +96,41 @@ inline unsigned verif_wrap_bit(kind_t k)
     default: return 0;
     }
 }
+#ifdef VERIF_TYPE_TREE
+}  // namespace UTAP
+/* ---- tree type stub: the REAL class type_t (type.h) over a raw node pointer ----------- */
+namespace std {
+struct ostream;
+template <typename T> struct optional { bool has; T v; optional(): has(false) {} };
+#ifndef VERIF_VEC_CAP
+#define VERIF_VEC_CAP 3
+#endif
+/* fixed-capacity std::vector: only what type.cpp uses on `children` */
+template <typename T>
+class vector
+{
+public:
+    T elems[VERIF_VEC_CAP];
+    size_t n;
+    vector(): n(0) {}
+    void resize(size_t k) { __CPROVER_assert(k <= VERIF_VEC_CAP, "stub: vector capacity (type arity bound)"); n = k; }
+    size_t size() const { return n; }
+    T& operator[](size_t i) { __CPROVER_assert(i < n, "stub: vector index < size()"); return elems[i]; }
+    const T& operator[](size_t i) const { __CPROVER_assert(i < n, "stub: vector index < size()"); return elems[i]; }
+};
+template <typename T, typename A, typename B>
+inline T* make_shared(A a, B b) { return new T(a, b); }
+template <typename T> inline T move(T x) { return x; }
+}  // namespace std
+namespace UTAP {
+using std::string;
+#include "type_class.inc" /* REAL: class type_t from include/utap/type.h (lowered: raw pointer, explicit default ctor) */
+#endif
+#ifdef VERIF_TYPE_FLAT
+/* ---- flat type abstraction (lemma TYPE-IS) ------------------------------------------
+   t.is(K)  <=>  K is the base kind, or K is one of the wrapper kinds on the chain.
+   Wrapper kinds that occur in documents: the prefixes URGENT COMMITTED BROADCAST CONSTANT
+   HYBRID SYSTEM_META and RANGE REF LABEL.  konst/mut abstract is_constant()/is_mutable(). */
 /* abstract range-bound expression: identity only (equal() is an equivalence relation) */
 struct verif_rng
 {
